@@ -270,6 +270,17 @@ func TestConversion(t *testing.T) {
 				if err != nil {
 					fail(t, map[string]any{"format": format, "lin": lin}, "no reader for a linear/linearised analog sensor: "+err.Error())
 				}
+				if n%2 == 0 {
+					// the caller goes on to use the record value for the next SDR (a
+					// reusable decoding layer): the reader was built from what the
+					// record held when it was made
+					other := ref.FSR{Owner: 0x20, Number: num + 1, Format: byte((format + 1) % 3), Lin: byte((lin + 5) % 12), M: -tp.M/2 + 7, B: tp.B/3 - 11, K1: -tp.K1 / 2, K2: (tp.K2 + 9) % 8,
+						ID: ref.IDString{Enc: ref.Enc8Bit, Codes: []byte("next record")}}
+					if err := rec.DecodeFromBytes(other.Body(), gopacket.NilDecodeFeedback); err != nil {
+						fail(t, other, "harness: second record does not decode: "+err.Error())
+					}
+					ev.Label("record-value-reused-after-reader-was-built")
+				}
 				for _, raw := range raws(n) {
 					st2 := byte(raw)
 					rd := ref.SensorReading{Reading: byte(raw), Scanning: true, Events: raw%2 == 0, State1: byte(raw * 3)}
@@ -385,5 +396,5 @@ func TestFlagsAndRefusals(t *testing.T) {
 }
 
 func TestCoverage(t *testing.T) {
-	ev.RequireLabels(t, 1, "tuple", "flags-and-refusals")
+	ev.RequireLabels(t, 1, "tuple", "flags-and-refusals", "record-value-reused-after-reader-was-built")
 }
